@@ -54,6 +54,17 @@ def bit_pairs_with_tail(wide: list[Atom]):
             yield (u8, a, b, t)  # the other parity of the unit's offset
 
 
+def bit_pairs_split(wide: list[Atom]):
+    """Two bit-fields separated by a member that occupies no bytes (void, zero-length array), followed by an ordinary field: the zero-size member
+    still ends the storage unit - in the layout and in both readers."""
+    bits = [a for a in wide if a.bits]
+    zeros = [a for a in wide if a.name in ("void", "uint32[0]")]
+    tail = [a for a in wide if a.name == "uint16"][0]
+    for a, b in itertools.product(bits, repeat=2):
+        for z in zeros:
+            yield (a, z, b, tail)
+
+
 def nolead_defs(atoms: list[Atom], k: int):
     """Definitions *without* the leading uint8 n0 (the first field is the atom itself): first-field behaviour."""
     for seq in product_defs([a for a in atoms if "n0" not in a.name], k):
@@ -98,10 +109,12 @@ def space(tier: str, which: str):
             yield from emit(eof_defs(C, 1))
             yield from emit(long_run(C, 11, 12, triples=False))
             yield from emit(bit_pairs_with_tail(W))
+            yield from emit(bit_pairs_split(W))
             yield from emit(nolead_defs(W, 1))
             yield from emit(nolead_defs(C, 2))
         else:
             yield from emit(bit_pairs_with_tail(W))
+            yield from emit(bit_pairs_split(W))
             yield from emit(nolead_defs(W, 2))
             yield from emit(nolead_defs(C, 3))
             yield from emit(product_defs(W, 2))
